@@ -106,7 +106,7 @@ CHECKS = {
         text=("Bounded model checking (Kani/CBMC) of the table store's index / scan kernels from arbitrary symbolic states: "
               "DisplacedTable::{timestamp_bounds, fast_subset, expand, eval, get_row_column, clear}, "
               "SortedOffsetSlice::{scan_for_offset, binary_search_from}, SubsetRef::iter_bounded (dense and sparse), "
-              "Subset::intersect (all four arms), Subset::add_row_sorted (the two dense arms), Offsets::bounds / SubsetRef::size. Each harness is one SAT query over every state within the bounds and asserts the "
+              "Subset::intersect (all four arms), Subset::add_row_sorted (the two dense arms), Offsets::bounds / SubsetRef::size, OffsetRange::offsets. Each harness is one SAT query over every state within the bounds and asserts the "
               "kernel against a row-by-row specification."),
         design_ref="DESIGN.md §2 C16",
         note=("Kernel level: <= 3 displaced rows, forest of 4 ids, sorted slices <= 6. Outside: whole-table operation sequences, "
